@@ -125,6 +125,21 @@ class ZipfGen:
         lines.append('ZGO')
         return '\n'.join(lines)
 
+    def throw_grid(self, prefix):
+        """deterministic inverted ranges: next to each other, far apart, and at the ends of every integer type (differences
+        that overflow a signed 64-bit integer, sign-bit corners)"""
+        out = []
+        k = 0
+        for cls in ('exact', 'approx'):
+            for typ, (lo, hi) in TYPES.items():
+                mid = (lo + hi) // 2
+                for mn, mx in ((hi, lo), (hi, hi - 1), (lo + 1, lo), (mid + 1, mid), (hi, mid), (mid + 1, lo), (10, 3), (1, 0)):
+                    if lo <= mx < mn <= hi:
+                        c = dict(id=f'{prefix}tg{k}', cls=cls, typ=typ, mn=mn, mx=mx, n=0, alpha=1.0)
+                        out.append(self.header(c) + '\nZGO')
+                        k += 1
+        return out
+
     def throw_case(self, cid):
         r = self.rng
         typ = r.choice(list(TYPES))
@@ -134,5 +149,12 @@ class ZipfGen:
         mx = max(lo, mx)
         if mx >= mn:
             mn, mx = lo + 1, lo
+        if r.random() < 0.5:
+            # inverted ranges at the ends of the type: min near the top, max near the bottom (differences that do not fit
+            # a signed 64-bit integer, sign-bit corners)
+            mn = r.choice([hi, hi - 1, hi // 2 + 1, hi // 2 + 2])
+            mx = r.choice([lo, lo + 1, hi // 2, hi // 2 - 1, mn - 1])
+            if mx >= mn:
+                mx = lo
         c = dict(id=cid, cls=r.choice(['exact', 'approx']), typ=typ, mn=mn, mx=mx, n=0, alpha=r.choice([0.0, 1.0, 2.5]))
         return self.header(c) + '\nZGO'
